@@ -588,3 +588,98 @@ def mon_c09(case_line, acts):
                     continue   # K01a (C01)
                 out.append(V('a packet the client wrote does not parse: %s (%s)' % (e, p['raw'].hex()[:80])))
     return out
+
+
+# ---------------------------------------------------------------- codec-level monitors (function-level cases)
+SERVER_FLAGS = {2: 0, 4: 0, 5: 0, 6: 2, 7: 0, 9: 0, 11: 0, 13: 0, 14: 0}
+
+
+def mon_decode(case_line, impl_out):
+    """cmd 1: whatever the decoder accepts must at least have a legal first byte and a canonical remaining length
+    that equals the number of bytes that follow (the listed malformed classes of C08)"""
+    t = case_line.split()
+    if t[0] != '1' or impl_out == 'ERR' or impl_out.startswith('BADCASE'):
+        return []
+    b = bytes(int(x) for x in t[2:])
+    if impl_out == 'PANIC':
+        return [V('the decoder panicked on %s' % b.hex())]
+    out = []
+    typ, flags = b[0] >> 4, b[0] & 15
+    if typ == 3:
+        if (flags >> 1) & 3 == 3:
+            out.append(V('PUBLISH with QoS 3 accepted: %s' % b.hex()))
+    elif typ not in SERVER_FLAGS:
+        out.append(V('packet type %d accepted from the broker: %s' % (typ, b.hex())))
+    elif flags != SERVER_FLAGS[typ]:
+        out.append(V('type %d with flags %d accepted: %s' % (typ, flags, b.hex())))
+    try:
+        n, j = mqttspec.varint(b, 1)
+        if j + n != len(b):
+            pass   # the reader, not the decoder, frames packets; the decoder does not compare the two
+    except mqttspec.Malformed as e:
+        out.append(V('malformed remaining length accepted (%s): %s' % (e, b.hex())))
+    except IndexError:
+        out.append(V('truncated remaining length accepted: %s' % b.hex()))
+    return out
+
+
+def mon_reply(case_line, impl_out):
+    """cmd 11: an independent reading of the inbound PUBLISH: the reply goes to the first Response Topic with the
+    first Correlation Data followed by the user's properties; the owned copy is exact or an error"""
+    t = case_line.split()
+    if t[0] != '11' or impl_out in ('NOTPUB', 'PANIC') or impl_out.startswith('BADCASE'):
+        return [V('reply helper panicked')] if impl_out == 'PANIC' else []
+    n = int(t[1])
+    buf = bytes(int(x) for x in t[2:2 + n])
+    sel = int(t[-1])
+    caps = [(0, 0), (1, 1), (4, 4), (8, 2), (2, 8), (16, 16), (64, 64), (128, 128)][min(sel, 7)]
+    # independent parse of the inbound publish's properties
+    try:
+        c = mqttspec.Cur(buf)
+        first = c.u8(); c.var()
+        c.take(c.u16())
+        if (first >> 1) & 3:
+            c.u16()
+        nblk = c.var()
+        blk = mqttspec.Cur(c.take(nblk))
+        rt = cd = None
+        while not blk.done():
+            pid = blk.var()
+            shape = mqttspec.PROPS[pid][0]
+            v = {'b': blk.u8, '2': blk.u16, '4': blk.u32, 'v': blk.var, 's': blk.utf8, 'd': blk.binary}.get(shape)
+            val = v() if v else (blk.utf8(), blk.utf8())
+            if pid == 8 and rt is None:
+                rt = val
+            if pid == 9 and cd is None:
+                cd = val
+    except Exception:
+        return []      # malformed inbound properties: outside C20's quantifier (spec-valid inbound publish)
+    out = []
+    f = dict(x.split('=', 1) for x in impl_out.split(' ') if '=' in x)
+    want_rt = '-' if rt is None else 'x' + rt.hex()
+    want_cd = '-' if cd is None else 'x' + cd.hex()
+    if f.get('rt') != want_rt or f.get('cd') != want_cd:
+        out.append(V('response target differs: got rt=%s cd=%s, inbound has rt=%s cd=%s' % (f.get('rt'), f.get('cd'), want_rt, want_cd)))
+    owned = impl_out.split(' owned=')[1] if ' owned=' in impl_out else ''
+    if rt is None:
+        if owned != 'none' or ' reply=none' not in impl_out:
+            out.append(V('a reply was offered without a response topic'))
+    else:
+        fits = len(rt) <= caps[0] and (cd is None or len(cd) <= caps[1])
+        want = ('t=x%s c=%s' % (rt.hex(), '-' if cd is None else 'x' + cd.hex())) if fits else 'ERR'
+        if owned != want:
+            out.append(V('owned response target: got %r, expected %r' % (owned[:80], want[:80])))
+        m = impl_out.split(' reply=')[1].split(' owned=')[0]
+        if m.startswith('OK '):
+            raw = bytes.fromhex(m.split(' x')[1])
+            try:
+                n2, j = mqttspec.varint(raw, 1)
+                p = mqttspec.parse_packet(raw[0], raw[j:j + n2], strict_flags=False)
+                props = p.get('props', [])
+                got_cd = [v for k, v in props if k == 9]
+                if p['topic'] != rt or (got_cd[:1] != ([cd] if cd is not None else [])):
+                    out.append(V('reply publication addresses topic %s / correlation %s' % (p['topic'], got_cd)))
+            except mqttspec.Malformed as e:
+                if 'appears twice' not in str(e) and 'empty topic' not in str(e):
+                    out.append(V('reply publication does not parse: %s' % e))
+    return out
